@@ -57,6 +57,16 @@ type t2txSpec struct {
 	CloseLost bool `json:"final_close_lost,omitempty"`
 	// Fault (C02T2): injected at AtPm per mille of the fault-free duration of the same transfer
 	Fault *t2Fault `json:"fault,omitempty"`
+	// Sel: selection mode - these files (each in a directory of its own) are named on the
+	// command line; the manifest comes from manifest.ScanPaths and the sender reads through
+	// the application's real buildPathResolver. Base names may collide.
+	Sel []t2Sel `json:"selection,omitempty"`
+}
+
+type t2Sel struct {
+	Dir  string `json:"dir"`
+	Name string `json:"name"`
+	N    int    `json:"n"`
 }
 
 type t2Fault struct {
@@ -112,6 +122,15 @@ func (h t2txHarness) Gen(r *verifsim.SplitMix, tier string, idx int) any {
 	}
 	if r.Chance(1, 3) {
 		sp.Dirs = append(sp.Dirs, "emptydir")
+	}
+	if h.prop != "C02T2" && !sp.CloseLost && r.Chance(1, 6) {
+		// files named on the command line, from different directories, with base names that
+		// collide - also with the names the disambiguation itself produces
+		names := []string{"a.bin", "a.bin", "a.bin", "1_a.bin", "2_a.bin", "b.bin"}
+		sp.Files, sp.Dirs, sp.NoRoot = nil, nil, true
+		for i, n := 0, 2+r.Intn(3); i < n; i++ {
+			sp.Sel = append(sp.Sel, t2Sel{Dir: fmt.Sprintf("d%d", i), Name: names[r.Intn(len(names))], N: 1 + r.Intn(3*c)})
+		}
 	}
 	if h.prop == "C02T2" {
 		sp.CloseLost, sp.LossPm = false, 0
@@ -207,6 +226,10 @@ func t2Digest(base string) []string {
 }
 
 var t2RunCounter int
+
+// set by Run for the transfer it starts (selection mode)
+var t2Resolver func(string) string
+var t2SendRoot string
 
 // t2Transfer runs one transfer over real QUIC in a bubble; fault (if any) strikes at `at`.
 func t2Transfer(sp t2txSpec, src, out string, m manifest.Manifest, logger *slog.Logger, fault *t2Fault, at time.Duration) t2Result {
@@ -359,7 +382,11 @@ func t2Transfer(sp t2txSpec, src, out string, m manifest.Manifest, logger *slog.
 						engineAt = d
 					}
 					mu.Unlock()
-					return transfer.SendManifestMultiStream(ctxS, sc, src, m, transfer.Options{ChunkSize: sp.Chunk, ParallelFiles: sp.Streams, Resume: sp.ResumeS, HashAlg: sp.Hash, StripeMax: sp.Conns})
+					root := src
+					if t2SendRoot != "" {
+						root = t2SendRoot
+					}
+					return transfer.SendManifestMultiStream(ctxS, sc, root, m, transfer.Options{ChunkSize: sp.Chunk, ParallelFiles: sp.Streams, Resume: sp.ResumeS, HashAlg: sp.Hash, StripeMax: sp.Conns, ResolveFilePath: t2Resolver})
 				}()
 				mu.Lock()
 				sendErr, sendRet, sendAt = err, true, time.Since(start)
@@ -439,11 +466,33 @@ func (h t2txHarness) Run(spec any) (res verifsim.RunResult) {
 		return nil
 	})
 	m, err := manifest.Scan(src)
+	var resolver func(string) string
+	sendRoot := src
+	var selHashes []string
+	if len(sp.Sel) > 0 {
+		var paths []string
+		for _, e := range sp.Sel {
+			p := filepath.Join(src, e.Dir, e.Name)
+			os.MkdirAll(filepath.Dir(p), 0o755)
+			b := t2Content(sp.Seed, e.Dir+"/"+e.Name, e.N)
+			os.WriteFile(p, b, 0o644)
+			os.Chtimes(p, t2Mtime, t2Mtime)
+			paths = append(paths, p)
+			selHashes = append(selHashes, fmt.Sprintf("%d %x", len(b), sha256.Sum256(b)))
+		}
+		sort.Strings(selHashes)
+		m, err = manifest.ScanPaths(paths)
+		if err == nil {
+			resolver, err = buildPathResolver(paths)
+		}
+		sendRoot = "."
+	}
 	if err != nil {
 		res.Skipped = true
 		return
 	}
 
+	t2Resolver, t2SendRoot = resolver, sendRoot
 	tr := t2Transfer(sp, src, out, m, logger, nil, 0)
 	if h.prop == "C02T2" {
 		return h.judgeFault(sp, src, out, m, logger, want, tr, res)
@@ -467,7 +516,20 @@ func (h t2txHarness) Run(spec any) (res verifsim.RunResult) {
 		if sendRet && recvRet && sendErr == nil && recvErr == nil {
 			res.Counters["t2_both_succeeded"]++
 			got := t2Digest(out)
-			if strings.Join(got, "\n") != strings.Join(want, "\n") {
+			if len(sp.Sel) > 0 {
+				// names are the disambiguation's business; every named file must be there with its bytes
+				var gotHashes []string
+				for _, g := range got {
+					if f := strings.Fields(g); len(f) == 4 && f[0] == "F" {
+						gotHashes = append(gotHashes, f[2]+" "+f[3])
+					}
+				}
+				sort.Strings(gotHashes)
+				res.Counters["t2_selection_mode"]++
+				if strings.Join(gotHashes, "\n") != strings.Join(selHashes, "\n") {
+					v("tree-differs", "t2:selection", fmt.Sprintf("real QUIC, files named on the command line %v: both sides reported success but the output does not hold each of them once: want (size hash) %v, got %v", sp.Sel, selHashes, got))
+				}
+			} else if strings.Join(got, "\n") != strings.Join(want, "\n") {
 				v("tree-differs", "t2", fmt.Sprintf("real QUIC: both sides reported success but the output tree differs:\nwant %v\ngot  %v", want, got))
 			}
 		} else {
